@@ -21,8 +21,7 @@ VERIF = os.path.dirname(os.path.dirname(os.path.abspath(__file__)))
 # model file -> properties whose quick checks evaluate it
 MAP = {
     "Attempt.v": ["C02", "C09", "C10", "C05"],
-    "Sched.v": ["C03", "C04", "C05", "C06", "C07", "C08"],
-    "Contract.v": ["C03", "C11"],
+    "Sched.v": ["C03", "C04", "C05", "C06", "C07", "C08", "C10"],
     "Normalize.v": ["C11", "C12"],
     "Stats.v": ["C12", "C01"],
     "Pipeline.v": ["C12", "C01", "C13"],
@@ -40,6 +39,7 @@ MAP = {
 }
 # the monitors (executable specifications): a mutant is killed when the monitor REJECTS the unchanged code
 SPEC_MAP = {
+    "Contract.v": ["C03", "C11"],
     "AttemptSpec.v": ["C02", "C09", "C10", "C05"],
     "SchedSpec.v": ["C03", "C04", "C05", "C06", "C07", "C08"],
     "StatsSpec.v": ["C12", "C01"],
